@@ -34,6 +34,13 @@ logging.disable(logging.CRITICAL)
 
 PROP = "C35"
 
+from ppci.api import get_arch  # noqa: E402
+from ppci.binutils.dbg.debug_driver import DebugState  # noqa: E402
+
+ARCH = get_arch("example")
+STOPPED = DebugState.STOPPED
+REGS_HEX = "443322118877665500ccbbaa"  # r0, r1, r2 little endian
+
 # ---- seams: module level names the code already resolves at call time -----
 rsp_mod.Queue = SimQueue
 rsp_mod.Lock = SimLock
@@ -56,6 +63,11 @@ FAULT_KINDS = [
     "p2c_corrupt_body", "p2c_corrupt_high", "p2c_corrupt_csum", "slow_ack",
     "close",
 ]
+
+
+BENIGN_FOR_DRIVER = {"c2p_corrupt_body", "c2p_corrupt_csum", "spurious_nack",
+                     "nack_storm", "noise", "p2c_corrupt_body",
+                     "p2c_corrupt_high", "p2c_corrupt_csum", "slow_ack"}
 
 
 def gen_payload(ch, maxlen=12):
@@ -83,6 +95,7 @@ def gen_config(ch):
     cfg["jitter_us"] = ch.pick([0, 5000], "jit")
     cfg["cut_num"] = ch.pick([0, 1, 4], "cut_num")
     cfg["horizon_us"] = ch.pick([0, 1000], "horizon")
+    cfg["weighted_sched"] = ch.weighted([1, 1], "wsched")
     cfg["ack_delay_us"] = ch.pick([0, 2000, 50000], "ackdelay")
     ncallers = 1 + ch.weighted([4, 3, 1], "ncallers")
     cfg["callers"] = []
@@ -97,6 +110,44 @@ def gen_config(ch):
     npeer = ch.weighted([2, 3, 3, 2, 1], "npeer")
     cfg["peer_packets"] = [(ch.pick([0, 500, 30000, 400000, 1500000], "pt"),
                             gen_payload(ch)) for _ in range(npeer)]
+    # topology: 0 = RspHandler against the reference peer (A2),
+    #           1 = GdbDebugDriver on top of it against a stub server (B)
+    cfg["topology"] = ch.weighted([3, 1], "topology")
+    if cfg["topology"] == 1:
+        # Faults that orphan or duplicate a *reply* (command accepted but its
+        # ack lost; client's ack of a reply lost; close) are left to topology
+        # 0: RSP has no sequence numbers, so what the driver does with a
+        # stale reply is outside the statement.
+        cfg["enabled"] = [k for k in cfg["enabled"] if k in BENIGN_FOR_DRIVER]
+        cfg["peer_packets"] = []  # well behaved stub: only replies
+        cfg["callers"] = []
+        nb = 1 + ch.weighted([3, 2], "b_ncallers")
+        cfg["bops"] = []
+        for c in range(nb):
+            ops = []
+            for _ in range(1 + ch.draw(4, "b_nops")):
+                kinds = ["read_mem", "write_mem", "set_breakpoint",
+                         "clear_breakpoint", "get_registers", "get_pc"]
+                if nb == 1:
+                    kinds += ["step", "step"]
+                k = ch.pick(kinds, "b_kind")
+                addr = ch.pick([0, 0x64, 0x1000, 0x2A, 0x23, 0x7D24],
+                               "b_addr")
+                if k == "read_mem":
+                    ops.append((k, addr, 1 + ch.draw(4, "b_size")))
+                elif k == "write_mem":
+                    n = 1 + ch.draw(3, "b_wlen")
+                    ops.append((k, addr, [ch.pick([0x23, 0x24, 0x7D, 0x2A, 1,
+                                                   0xFF, 0x30], "b_byte")
+                                          for _ in range(n)]))
+                elif k in ("set_breakpoint", "clear_breakpoint"):
+                    ops.append((k, addr))
+                elif k == "step":
+                    ops.append((k, ch.pick(["S05", "S02", "T0500:44332211;",
+                                            "T05thread:01;"], "b_stop")))
+                else:
+                    ops.append((k,))
+            cfg["bops"].append(ops)
     return cfg
 
 
@@ -276,15 +327,17 @@ class RefPeer:
             self.sim.log("peer", "rx_pkt", (good, raw, seen))
             if accepted:
                 self.accepted.append(payload)
-            if wire_b is not None:
-                def send_ack(rec=rec, wire_b=wire_b, seen=seen):
-                    if not self.closed:
-                        rec["resp"] = seen
-                        self.emit(wire_b)
+            def send_ack(rec=rec, wire_b=wire_b, seen=seen,
+                         accepted=accepted, payload=payload):
+                # a conformant stub acknowledges first and answers afterwards
+                if not self.closed and wire_b is not None:
+                    rec["resp"] = seen
+                    self.emit(wire_b)
+                if accepted and self.reply_fn is not None and \
+                        not self.closed:
+                    self.reply_fn(payload)
 
-                self.sim.after(delay, send_ack, "peer.ack")
-            if accepted and self.reply_fn is not None:
-                self.reply_fn(payload)
+            self.sim.after(delay, send_ack, "peer.ack")
         elif it[0] == "ack":
             if self.outstanding is not None:
                 if it[1] == "+":
@@ -378,6 +431,7 @@ class World:
         self.sim = Sim(ch, step_cap=20000, time_cap_us=600_000_000,
                        horizon_us=cfg["horizon_us"])
         self.sim.net = self
+        self.sim.weighted = bool(cfg["weighted_sched"])
         self.faults = Faults(ch, cfg)
         self.peer = RefPeer(self)
         self.c2p = None
@@ -388,6 +442,15 @@ class World:
         self.transport = None
         self.main_done = False
         self.probe = None
+        self.drv = None
+        self.bcalls = []
+        self.stops_processed = []
+        self.replies_taken = []
+        self.pending_stops = []
+        self.stub_writes = []
+        self.leftover = []
+        self.leftover_before_probe = None
+        self.forced_stop = 0
 
     # sim.net interface
     def connect(self, sock, addr):
@@ -404,25 +467,43 @@ class World:
         self.sim.log(self.sim.name(), "on_message", msg)
         self.msgs.append(msg)
 
+    def install_recorder(self, handler):
+        """Record every sendpkt call (invoke / return, outcome) - also the
+        ones the driver makes internally."""
+        orig = handler.sendpkt
+        w = self
+
+        def sendpkt(data, retries=None):
+            sim = w.sim
+            rec = {"actor": sim.name(), "payload": data, "retries": retries,
+                   "start": sim.seq + 1, "outcome": None, "end": None,
+                   "phase2": w.faults.off}
+            w.calls.append(rec)
+            sim.log(sim.name(), "call", (data, retries))
+            try:
+                if retries is None:
+                    orig(data)
+                else:
+                    orig(data, retries=retries)
+                rec["outcome"] = "ok"
+            except sched.Abort:
+                raise
+            except BaseException as e:  # behaviour of the code under test
+                rec["outcome"] = type(e).__name__
+                raise
+            finally:
+                sim.log(sim.name(), "ret", rec["outcome"])
+                rec["end"] = sim.seq
+
+        handler.sendpkt = sendpkt
+
     def do_call(self, payload, retries):
-        sim = self.sim
-        rec = {"actor": sim.name(), "payload": payload, "retries": retries,
-               "start": sim.seq + 1, "outcome": None, "end": None,
-               "phase2": self.faults.off}
-        self.calls.append(rec)
-        sim.log(sim.name(), "call", (payload, retries))
         try:
-            if retries is None:
-                self.handler.sendpkt(payload)
-            else:
-                self.handler.sendpkt(payload, retries=retries)
-            rec["outcome"] = "ok"
+            self.handler.sendpkt(payload, retries=retries)
         except sched.Abort:
             raise
-        except BaseException as e:  # behaviour of the code under test
-            rec["outcome"] = type(e).__name__
-        sim.log(sim.name(), "ret", rec["outcome"])
-        rec["end"] = sim.seq
+        except BaseException:  # recorded by the recorder
+            pass
 
     def caller(self, ops):
         sim = self.sim
@@ -432,11 +513,141 @@ class World:
             if gap:
                 sim.sleep(gap)
 
-    def main(self):
+    # ------------------------------------------------ topology B (driver)
+    def stub_reply(self, payload):
+        """Well behaved gdb stub: exactly one reply per command; a stop
+        reply only after 's' / 'c'."""
+        cmd = payload.decode("latin-1")
+        peer = self.peer
+        if cmd.startswith("m"):
+            a, n = cmd[1:].strip().split(",")
+            a, n = int(a, 16), int(n, 16)
+            peer.enqueue(bytes((a + i) & 0xFF for i in range(n)).hex()
+                         .encode())
+        elif cmd.startswith(("M", "Z", "z", "P")):
+            self.stub_writes.append(cmd)
+            peer.enqueue(b"OK")
+        elif cmd == "g":
+            peer.enqueue(REGS_HEX.encode())
+        elif cmd.startswith("p"):
+            idx = int(cmd[1:].strip(), 16)
+            peer.enqueue(REGS_HEX[8 * idx: 8 * idx + 8].encode())
+        elif cmd in ("s", "c"):
+            stop = self.pending_stops.pop(0) if self.pending_stops else "S05"
+            delay = 1000 + self.ch.draw(200_000, "stopdelay")
+            self.sim.after(delay, lambda: peer.enqueue(stop.encode()),
+                           "stub.stop")
+        else:
+            peer.enqueue(b"")
+
+    def bcaller(self, ops):
+        sim = self.sim
+        drv = self.drv
+        for op in ops:
+            sim.yield_("bcaller")
+            rec = {"actor": sim.name(), "op": op, "result": None,
+                   "exc": None, "phase2": self.faults.off}
+            self.bcalls.append(rec)
+            sim.log(sim.name(), "bop", op)
+            try:
+                k = op[0]
+                if k == "read_mem":
+                    rec["result"] = drv.read_mem(op[1], op[2]).hex()
+                elif k == "write_mem":
+                    drv.write_mem(op[1], bytes(op[2]))
+                elif k == "set_breakpoint":
+                    drv.set_breakpoint(op[1])
+                elif k == "clear_breakpoint":
+                    drv.clear_breakpoint(op[1])
+                elif k == "get_registers":
+                    regs = drv.get_registers(ARCH.gdb_registers)
+                    rec["result"] = [regs.get(r) for r in ARCH.gdb_registers]
+                elif k == "get_pc":
+                    rec["result"] = drv.get_pc()
+                elif k == "step":
+                    self.pending_stops.append(op[1])
+                    drv.step()
+                    # the next command needs a stopped target
+                    ok = sim.block(lambda: drv.status == STOPPED,
+                                   30_000_000, "bcaller.wait_stop")
+                    rec["result"] = "stopped" if ok else "still-running"
+                    if not ok:
+                        # the stop reply overtook step()'s own bookkeeping
+                        # (state machine of the driver, not part of the
+                        # statement): carry on as the unit tests do
+                        self.forced_stop += 1
+                        drv.status = STOPPED
+            except sched.Abort:
+                raise
+            except BaseException as e:  # behaviour of the code under test
+                rec["exc"] = f"{type(e).__name__}: {e}"
+            sim.log(sim.name(), "bret", (rec["result"], rec["exc"]))
+
+    def main_b(self):
         sim = self.sim
         cfg = self.cfg
         self.transport = transport_mod.TCP(1234)
+        drv = self.drv = client_mod.GdbDebugDriver(ARCH, self.transport)
+        self.handler = drv._rsp
+        self.install_recorder(self.handler)
+        orig_on = drv._rsp.on_message
+        w = self
+
+        def on_message(m):
+            w.on_message(m)
+            orig_on(m)
+
+        drv._rsp.on_message = on_message
+        orig_psp = drv._process_stop_status
+
+        def psp(pkt):
+            sim.log(sim.name(), "stop_processed", pkt)
+            w.stops_processed.append(pkt)
+            return orig_psp(pkt)
+
+        drv._process_stop_status = psp
+        orig_recv = drv._recv_message
+
+        def recv(timeout=3):
+            m = orig_recv(timeout=timeout)
+            sim.log(sim.name(), "reply_taken", m)
+            w.replies_taken.append(m)
+            return m
+
+        drv._recv_message = recv
+        self.peer.reply_fn = self.stub_reply
+        drv.connect()
+        drv.status = STOPPED
+        threads = [SimThread(target=self.bcaller, args=(ops,),
+                             name=f"caller{i}")
+                   for i, ops in enumerate(cfg["bops"])]
+        for t in threads:
+            t.start()
+        for t in threads:
+            t.join()
+        sim.block(self.peer.idle, 60_000_000, "main.wait_peer")
+        sim.sleep(4_000_000)
+        self.faults.off = True
+        sim.log("main", "faults_off")
+        self.leftover_before_probe = list(drv._msg_queue.items) or \
+            bool(died_threads(sim))
+        if not self.peer.closed and drv.status == STOPPED:
+            self.bcaller([("read_mem", 0x7D24, 4)])
+            sim.block(self.peer.idle, 60_000_000, "main.wait_peer2")
+        sim.sleep(1_000_000)
+        self.leftover = list(drv._msg_queue.items)
+        drv.disconnect()
+        self.main_done = True
+        sim.log("main", "done")
+
+    def main(self):
+        sim = self.sim
+        cfg = self.cfg
+        if cfg["topology"] == 1:
+            return self.main_b()
+        self.transport = transport_mod.TCP(1234)
         self.handler = rsp_mod.RspHandler(self.transport)
+        self.install_recorder(self.handler)
         self.handler.on_message = self.on_message
         self.transport.connect()
         for t, payload in cfg["peer_packets"]:
@@ -461,6 +672,10 @@ class World:
         self.transport.disconnect()
         self.main_done = True
         sim.log("main", "done")
+
+
+def died_threads(sim):
+    return [(e[2], e[4]) for e in sim.history if e[3] == "thread_died"]
 
 
 def judge(w, verdict):
@@ -596,8 +811,7 @@ def judge(w, verdict):
                     viol.append(("O3-after-ack",
                                  "retransmitted after '+': " + desc))
                     break
-                if out != "ok" and out is not None and \
-                        retrans < max(1, budget - 1):
+                if out != "ok" and out is not None:
                     viol.append(("O3-ack-ignored",
                                  "acknowledged but failed: " + desc))
             elif r == "-":
@@ -647,14 +861,17 @@ def judge(w, verdict):
             problems.append(f"{len(peer.rx_packets)} transmissions for "
                             f"{len(w.calls)} calls")
         exp = [p.decode("latin-1") for p in peer.sent_order]
-        if len(exp) != len(cfg["peer_packets"]) + 1 or got != exp:
+        if got != exp or (cfg["topology"] == 0 and
+                          len(exp) != len(cfg["peer_packets"]) + 1):
             problems.append(f"peer sent {exp!r}, on_message got {got!r}")
         if died:
             problems.append(f"threads died: {died}")
         if problems:
             viol.append(("O6-clean", "fault free run misbehaved: "
                          + "; ".join(problems)))
-    if not clean and complete and not closed:
+    if cfg["topology"] == 1:
+        viol += judge_driver(w, complete, closed, clean, died, got, probe)
+    elif not clean and complete and not closed:
         probe("recovery_checked")
         pc = [c for c in w.calls if c["phase2"]]
         problems = []
@@ -672,6 +889,83 @@ def judge(w, verdict):
     if len(cfg["callers"]) > 1:
         probe("multi_caller")
     return viol, probes
+
+
+def expected_result(op):
+    k = op[0]
+    if k == "read_mem":
+        return bytes((op[1] + i) & 0xFF for i in range(op[2])).hex()
+    if k == "get_registers":
+        return [0x11223344, 0x55667788, 0xAABBCC00]
+    if k == "get_pc":
+        return 0x11223344
+    return None
+
+
+def judge_driver(w, complete, closed, clean, died, got, probe):
+    """Topology B: the debug driver on top of the RSP handler.  Incoming
+    messages are routed exactly once: stop replies to the stop handler,
+    everything else to a waiting command - nothing lost, nothing twice."""
+    from collections import Counter
+
+    viol = []
+    probe("driver_runs")
+    if w.forced_stop:
+        probe("driver_stop_overtook_step", w.forced_stop)
+    stops = [m for m in got if m.startswith(("T", "S"))]
+    others = [m for m in got if not m.startswith(("T", "S"))]
+    taken = Counter(w.replies_taken)
+    avail = Counter(others)
+    if taken - avail:
+        viol.append(("B1-reply-dup", f"replies handed to commands "
+                                     f"{w.replies_taken!r} are not among the "
+                                     f"delivered messages {others!r}"))
+    if w.stops_processed != stops[: len(w.stops_processed)]:
+        viol.append(("B1-stop-route", f"stop handler processed "
+                                      f"{w.stops_processed!r}, stop replies "
+                                      f"delivered {stops!r}"))
+    if clean and complete:
+        probe("driver_clean_runs")
+        problems = []
+        if taken + Counter(w.leftover) != avail:
+            problems.append(f"replies delivered {others!r}, taken by "
+                            f"commands {w.replies_taken!r}, left in queue "
+                            f"{w.leftover!r}")
+        if w.stops_processed != stops:
+            problems.append(f"stop replies delivered {stops!r}, processed "
+                            f"{w.stops_processed!r}")
+        bad = [(c["op"], c["exc"]) for c in w.bcalls if c["exc"]]
+        single = len(w.cfg["bops"]) == 1
+        if bad and single:
+            problems.append(f"operations failed: {bad!r}")
+        if single:
+            probe("driver_single_caller")
+            for c in w.bcalls:
+                exp = expected_result(c["op"])
+                if exp is not None and c["result"] != exp and not c["exc"]:
+                    problems.append(f"{c['op']!r} returned {c['result']!r}, "
+                                    f"stub answered {exp!r}")
+            writes = [c["op"] for c in w.bcalls
+                      if c["op"][0] in ("write_mem", "set_breakpoint",
+                                        "clear_breakpoint")]
+            if len(writes) != len(w.stub_writes):
+                problems.append(f"{len(writes)} write commands issued, stub "
+                                f"saw {w.stub_writes!r}")
+        if problems:
+            viol.append(("B2-driver-clean", "fault free driver run "
+                         "misbehaved: " + "; ".join(problems)
+                         + f"; died={died}"))
+    if not clean and complete and not closed:
+        last = w.bcalls[-1] if w.bcalls else None
+        if last is not None and last["phase2"]:
+            probe("driver_recovery_checked")
+            if last["result"] != expected_result(last["op"]) and \
+                    len(w.cfg["bops"]) == 1 and not w.leftover_before_probe:
+                viol.append(("B3-driver-recovery",
+                             f"command after faults stopped: {last['op']!r} "
+                             f"-> {last['result']!r} / {last['exc']!r}; "
+                             f"died={died}"))
+    return viol
 
 
 def run_one(ch, render=False):
@@ -706,6 +1000,9 @@ def run_one(ch, render=False):
                         for e in sim.history],
             "schedule": [f"{a}:{o}" for a, o in sim.sig][:400],
             "calls": [{k: v for k, v in c.items()} for c in w.calls],
+            "driver_ops": w.bcalls,
+            "stops_processed": w.stops_processed,
+            "replies_taken": w.replies_taken,
             "on_message": w.msgs,
             "faults_fired": dict(w.faults.fired),
         }
@@ -740,8 +1037,9 @@ class Spec:
         "duplicated or >0.5 s late acks, framing bytes never created or "
         "destroyed by corruption, no run-length encoding)",
         "payloads are ASCII str (the API encodes with 'ascii')",
-        "the exact retry count is not asserted: failing after >= retries-1 "
-        "retransmissions is accepted",
+        "the exact retry count is not asserted (giving up after retries-1 or "
+        "retries retransmissions is accepted), but an acknowledged packet "
+        "must be reported as sent",
     ]
     components_real = [
         "ppci.binutils.dbg.gdb.rsp (RspHandler.sendpkt/send/_process_byte/"
